@@ -4,9 +4,10 @@ emit('C15', '''C15 — Silent peers time out; healthy peers never do, for every 
    PARTIAL: "in a mesh with stable membership on a delivering network no healthy peer is ever timed
    out" combines interval_safe with message delivery; it is decided by the executed correspondence
    on heterogeneous meshes for the grid of timeout/keepalive values (py/props/c15.py).''',
- ['Base','Interval','IntervalProofs','NodeInfo','Table','TableProofs','Nonce','Replay','Core','Conn','PeerCrypto','Node','NodeProofs','ScheduleProofs'],
+ ['Base','Interval','IntervalProofs','NodeInfo','Table','TableProofs','Nonce','Replay','Core','Conn','PeerCrypto','Node','NodeProofs','ScheduleProofs','NextHopProofs','TickPeersProofs','FloodProofs','AnnounceProofs'],
  [('interval_safe','IntervalProofs.v','interval_safe','whenever a node schedules its next announcement the delay is at most one second or strictly shorter than every timeout its peers advertised'),
   ('node_schedule_safe','ScheduleProofs.v','announcement_schedule_safe','node level: the announcement step of housekeeping (C15_housekeep_expires_first shows where it sits) sets the next announcement to now + that interval, computed from the timeouts its current peers advertised'),
+  ('reachable_announcement_reaches_every_peer','AnnounceProofs.v','reachable_announcement_reaches_every_peer','EVERY REACHABLE STATE ("healthy peers never time out" needs the announcements to go out): whenever an announcement is due, the housekeeping tick emits it to every node that is still a peer after the expiry and crypto phases of that very tick, once each - whether or not a later housekeeping step fails (c_hkfault): the announcement sits before the steps that can fail (hk3 = the node after expiry, table sweep and crypto housekeeping)'),
   ('interval_no_peers','IntervalProofs.v','interval_no_peers','with no peers the own update frequency, capped at 90 s'),
   ('keepalive_default','IntervalProofs.v','keepalive_default','the default keepalive is at least 1 and below the peer timeout'),
   ('expired_removed','NodeProofs.v','expired_peers_removed','a peer whose timeout passed is removed at the next housekeeping tick together with all its claims and learned entries'),
